@@ -9,6 +9,7 @@ import Driver.Proc
 import AL.Model.SrcPos
 import Driver.Calls
 import Driver.Visit
+import Driver.ParseStep
 
 def dispatch (line : String) : String :=
   match (line.trimAscii.toString.splitOn " ").filter (· ≠ "") with
@@ -20,8 +21,10 @@ def dispatch (line : String) : String :=
   | "sema" :: args => Driver.SemaD.handle args
   | "tyop" :: args => Driver.SemaD.handleTyOp args
   | "visit" :: args => Driver.VisitD.handle args
+  | "parsestep" :: args => Driver.ParseStepD.handle args
   | "lintsort" :: args => Driver.LintD.handleSort args
   | "relpath" :: args => Driver.LintD.handleRel args
+  | "projectat" :: args => Driver.LintD.handleProjectAt args
   | "matcher" :: args => Driver.RenderD.handleMatcher args
   | "header" :: args => Driver.RenderD.handleHeader args
   | "snippet" :: args => Driver.RenderD.handleSnippet args
